@@ -315,4 +315,353 @@ theorem validateNode_decision (i : Nat) (w : SW) :
         | (cases vV i (",".intercalate ts) <;> simp)
 
 end validate
+/-! ### elHelper.ReplaceAllContent -/
+section el
+variable {σ : Type} (ops : ElOps String) (cb : String → σ → Except String String × σ) (bound : Nat)
+
+def elBody : List Stmt := match Progs.el_ReplaceAllContent.body with | [_, .forc _ _ _ b, _] => b | _ => []
+theorem el_shape : Progs.el_ReplaceAllContent.body =
+    [.define ["result"] (.var "s"),
+     .forc [.define ["round"] (.int 0)] (.bool true) [.assign ["round"] (.bin "+" (.var "round") (.int 1))] elBody,
+     .ret [.var "result", .nil]] := rfl
+theorem el_params : Progs.el_ReplaceAllContent.params = ["s", "f"] := rfl
+
+def envEl (s0 : String) (t : Nat × String) : Env :=
+  [("round", .int t.1), ("result", .str t.2), ("s", .str s0), ("f", .ref 0 40)]
+
+/-- one round on the model state (round, result) -/
+def elStep (t : Nat × String) (w : σ) : (Nat × String) × σ × Option Ctl :=
+  if ops.find t.2 == "" then (t, w, some .norm)
+  else if t.1 ≥ bound then (t, w, some (.ret (.tuple [.str "", .str "unresolved"])))
+  else match (cb (ops.content (ops.find t.2)) w).1 with
+    | .error e => (t, (cb (ops.content (ops.find t.2)) w).2, some (.ret (.tuple [.str "", .str e])))
+    | .ok r => ((t.1 + 1, ops.replace1 t.2 (ops.find t.2) r), (cb (ops.content (ops.find t.2)) w).2, none)
+
+theorem el_iter (fuel : Nat) (s0 : String) (t : Nat × String) (w : σ) :
+    forcIter (elPrims ops cb bound fuel) (.bool true) [.assign ["round"] (.bin "+" (.var "round") (.int 1))] elBody (envEl s0 t) w =
+    some (envEl s0 (elStep ops cb bound t w).1, (elStep ops cb bound t w).2.1, (elStep ops cb bound t w).2.2) := by
+  obtain ⟨round, result⟩ := t
+  by_cases he : ops.find result = ""
+  · go_simp [forcIter, envEl, elStep, elBody, Progs.el_ReplaceAllContent, elPrims, elFn, he]
+  · have he' : (ops.find result == "") = false := by simpa using he
+    by_cases hb : round ≥ bound
+    · have hbI : decide ((round : Int) ≥ (bound : Int)) = true := by simpa using hb
+      go_simp [forcIter, envEl, elStep, elBody, Progs.el_ReplaceAllContent, elPrims, elFn, he, he', hb, hbI]
+    · have hbI : decide ((round : Int) ≥ (bound : Int)) = false := by
+        have : ¬ (round : Int) ≥ (bound : Int) := by omega
+        simpa using this
+      rcases hcb : cb (ops.content (ops.find result)) w with ⟨r, w'⟩
+      cases r with
+      | error e =>
+        go_simp [forcIter, envEl, elStep, elBody, Progs.el_ReplaceAllContent, elPrims, elFn, he, he', hb, hbI, hcb, encStrRes]
+      | ok r =>
+        go_simp [forcIter, envEl, elStep, elBody, Progs.el_ReplaceAllContent, elPrims, elFn, he, he', hb, hbI, hcb, encStrRes]
+
+def encElRes : Except String String → Val
+  | .ok r => .tuple [.str r, .nil]
+  | .error e => .tuple [.str "", .str e]
+
+/-- what `run` makes of the loop's outcome followed by `return result, nil` -/
+def elFinish (r : Option ((Nat × String) × σ × Ctl)) : Option (Val × σ) :=
+  match r with
+  | some (t, w', .norm) => some (.tuple [.str t.2, .nil], w')
+  | some (_, w', .ret v) => some (v, w')
+  | _ => none
+
+/-- the rounds of the regenerated loop are the model loop -/
+theorem elStep_loop (hE : ∀ s, ops.isEmpty s = (s == "")) : ∀ (fuel round : Nat) (s : String) (w : σ),
+    elFinish (stepWhile (elStep ops cb bound) fuel (round, s) w) =
+      (elLoop ops cb "unresolved" bound fuel round s w).map (fun r => (encElRes r.1, r.2)) := by
+  intro fuel
+  induction fuel with
+  | zero => intro round s w; rfl
+  | succ n ih =>
+    intro round s w
+    simp only [stepWhile, elLoop, elStep, hE]
+    by_cases he : ops.find s = ""
+    · simp [he, elFinish, encElRes]
+    · have he' : (ops.find s == "") = false := by simpa using he
+      simp only [he', Bool.false_eq_true, if_false]
+      by_cases hb : round ≥ bound
+      · simp [hb, elFinish, encElRes]
+      · simp only [hb, if_false]
+        rcases hcb : cb (ops.content (ops.find s)) w with ⟨r, w'⟩
+        cases r with
+        | error e => simp [elFinish, encElRes]
+        | ok r => simp only []; exact ih (round + 1) _ w'
+
+/-- elHelper.ReplaceAllContent, regenerated (el.go:42-61): for EVERY string operations table, callback (which may change
+    the world), bound and input it is the model loop `elLoop` — same rounds, same order of callback invocations, the bound
+    checked after the search and before the callback, the first callback error ends it -/
+theorem el_sem (hE : ∀ s, ops.isEmpty s = (s == "")) (fuel : Nat) (s : String) (w : σ) :
+    run (elPrims ops cb bound fuel) Progs.el_ReplaceAllContent [.str s, .ref 0 40] w =
+      (elLoop ops cb "unresolved" bound fuel 0 s w).map (fun r => (encElRes r.1, r.2)) := by
+  rw [← elStep_loop ops cb bound hE]
+  simp only [run, el_params, el_shape, List.length_cons, List.length_nil, if_true, List.zip_cons_cons, List.zip_nil_right]
+  rw [evalB_cons]
+  have h0 : evalS (elPrims ops cb bound fuel) [("s", Val.str s), ("f", Val.ref 0 40)] w (.define ["result"] (.var "s")) =
+      some ([("result", .str s), ("s", .str s), ("f", .ref 0 40)], w, .norm) := by go_simp []
+  rw [h0]
+  simp only []
+  rw [evalB_cons]
+  rw [evalS_forc_state (elPrims ops cb bound fuel) [("result", .str s), ("s", .str s), ("f", .ref 0 40)] w w _ _ _ _
+    (envEl s) (elStep ops cb bound) (0, s) (by go_simp [envEl]) (fun t w' => el_iter ops cb bound fuel s t w')]
+  have hfuel : (elPrims ops cb bound fuel).fuel = fuel := rfl
+  rw [hfuel]
+  rcases hr : stepWhile (elStep ops cb bound) fuel (0, s) w with _ | ⟨t, w', c⟩
+  · simp [elFinish]
+  · cases c with
+    | norm => go_simp [elFinish, envEl]
+    | brk => simp [elFinish]
+    | cont => simp [elFinish]
+    | ret v => simp [elFinish]
+
+/-- with fuel above the bound the interpretation never runs out: the loop ends for every callback -/
+theorem elLoop_terminates {S ε : Type} (o : ElOps S) (c : S → σ → Except ε S × σ) (be : ε) :
+    ∀ (fuel round : Nat) (s : S) (w : σ), 1 ≤ fuel → bound + 1 ≤ fuel + round →
+      (elLoop o c be bound fuel round s w).isSome = true := by
+  intro fuel
+  induction fuel with
+  | zero => intro round s w h; omega
+  | succ n ih =>
+    intro round s w _ h2
+    simp only [elLoop]
+    by_cases he : o.isEmpty (o.find s) = true
+    · simp [he]
+    · simp only [he, Bool.false_eq_true, if_false]
+      by_cases hb : round ≥ bound
+      · simp [hb]
+      · simp only [hb, if_false]
+        rcases hcb : c (o.content (o.find s)) w with ⟨r, w'⟩
+        cases r with
+        | error e => simp
+        | ok r => simp only []; exact ih (round + 1) _ w' (by omega) (by omega)
+
+end el
+/-! ### configQuoteAwarePostProcessors.PostProcessProperties -/
+section quote
+variable (props : List SProp) (ops : ElOps String) (splitN : String → String × Option String) (cfg : String → Option QV)
+  (lenOf : Nat → Nat) (parse : String → Except String Nat) (fmtAny : Nat → Except String String) (bound fuel : Nat)
+
+abbrev QP := quotePrims props ops splitN cfg lenOf parse fmtAny bound fuel
+
+/-- a function literal that always answers like the total callback `cb` makes the literal loop the model loop -/
+theorem elLoopK_total {σ : Type} (o : ElOps String) (k : Handler σ) (cb : String → σ → Except String String × σ) (b : Nat)
+    (hE : ∀ s, o.isEmpty s = (s == ""))
+    (hk : ∀ c w, k [.str c] w = some (encStrRes (cb c w).1, (cb c w).2)) :
+    ∀ (fuel round : Nat) (s : String) (w : σ),
+      elLoopK o k b fuel round s w = (elLoop o cb "unresolved" b fuel round s w).map (fun r => (encElRes r.1, r.2)) := by
+  intro fuel
+  induction fuel with
+  | zero => intro round s w; rfl
+  | succ n ih =>
+    intro round s w
+    simp only [elLoopK, elLoop, hE, hk]
+    by_cases he : o.find s = ""
+    · simp [he, encElRes]
+    · have he' : (o.find s == "") = false := by simpa using he
+      simp only [he', Bool.false_eq_true, if_false]
+      by_cases hb : round ≥ b
+      · simp [hb, encElRes]
+      · simp only [hb, if_false]
+        rcases hcb : cb (o.content (o.find s)) w with ⟨r, w'⟩
+        cases r with
+        | error e => simp [encStrRes, encElRes]
+        | ok r => simp only [encStrRes]; exact ih (round + 1) _ w'
+
+def qpBody : List Stmt := match Progs.quote_PostProcessProperties.body with | [.range _ _ _ b, _] => b | _ => []
+theorem qp_shape : Progs.quote_PostProcessProperties.body =
+    [.range "_" "prop" (.var "properties") qpBody, .ret [.nil, .nil]] := rfl
+theorem qp_params : Progs.quote_PostProcessProperties.params = ["properties", "component", "componentName"] := rfl
+
+/-- the function literal handed to ReplaceAllContent -/
+def qpClosure : List String × List Stmt :=
+  match qpBody with
+  | [_, .define _ (.hcall _ _ ps b), _, _] => (ps, b)
+  | _ => ([], [])
+theorem qpBody_shape : qpBody =
+    [.ifs [] (.not (.call "self.el.MatchString" [.sel (.var "prop") "TagStr"])) [.cont] [],
+     .define ["content", "err"] (.hcall "self.el.ReplaceAllContent" [.sel (.var "prop") "TagStr"] qpClosure.1 qpClosure.2),
+     .ifs [] (.bin "!=" (.var "err") .nil)
+       [.ret [.nil, .call "errors.WithMessagef" [.var "err", .str "config quote value on '%s' failed", .var "prop"]]] [],
+     .store (.var "prop") "TagVal" (.var "content")] := rfl
+theorem qpClosure_params : qpClosure.1 = ["exp"] := rfl
+
+def envQ (n k : Nat) : Env := Env.def (Env.def (envS n) "_" (.int 0)) "prop" (.ref k 20)
+
+open Lean.Parser.Tactic in
+macro "qp_simp" "[" ts:simpLemma,* "]" : tactic =>
+  `(tactic| go_simp [qpClosure, qpBody, Progs.quote_PostProcessProperties, QP, quotePrims, quoteFn_Match, quoteFn_TagStr,
+      quoteFn_SplitN, quoteFn_Get, quoteFn_assertMap30, quoteFn_assertMap31, quoteFn_assertMap32, quoteFn_assertList30,
+      quoteFn_assertList31, quoteFn_assertList32, quoteFn_ParseAny, quoteFn_FormatAny, quoteFn_SetCfgNil, quoteFn_SetCfg,
+      quoteFn_setTagVal, quoteFn_Wrapf, quoteFn_WithMessagef, envQ, envS, quoteCb, quoteDecision, quoteAbsent, encQV, QKind.code,
+      encParse, encStrRes, natCast_succ_beq_zero, Except.map, $ts,*])
+
+/-- what the primitive gets when it calls the function literal of node k (in the environment of the loop body) -/
+def qpHandler (n k : Nat) : Handler SW := fun as w'' =>
+  if qpClosure.1.length = as.length then
+    match evalB (QP props ops splitN cfg lenOf parse fmtAny bound fuel) ((qpClosure.1.zip as) ++ envQ n k) w'' qpClosure.2 with
+    | some (_, w3, .ret v) => some (v, w3)
+    | some (_, w3, .norm) => some (.tuple [], w3)
+    | _ => none
+  else none
+
+/-- the function literal IS the callback `quoteCb` of the node -/
+theorem qp_closure (n k : Nat) (c : String) (w : SW) :
+    qpHandler props ops splitN cfg lenOf parse fmtAny bound fuel n k [.str c] w =
+      some (encStrRes (quoteCb splitN cfg lenOf parse fmtAny k c w).1, (quoteCb splitN cfg lenOf parse fmtAny k c w).2) := by
+  unfold qpHandler
+  rw [qpClosure_params]
+  simp only [List.length_cons, List.length_nil, if_true, List.zip_cons_cons, List.zip_nil_right]
+  rcases hs : splitN c with ⟨key, dflt⟩
+  have hs1 : (splitN c).1 = key := by rw [hs]
+  have hs2 : (splitN c).2 = dflt := by rw [hs]
+  -- the configured value is used
+  have used : ∀ (a : Nat) (kd : QKind), cfg key = some (a, kd) → quoteAbsent lenOf (some (a, kd)) = false →
+      (match evalB (QP props ops splitN cfg lenOf parse fmtAny bound fuel) ([("exp", Val.str c)] ++ envQ n k) w qpClosure.2 with
+        | some (_, w3, .ret v) => some (v, w3)
+        | some (_, w3, .norm) => some (.tuple [], w3)
+        | _ => none) =
+      some (encStrRes (quoteCb splitN cfg lenOf parse fmtAny k c w).1, (quoteCb splitN cfg lenOf parse fmtAny k c w).2) := by
+    intro a kd hc hab
+    cases kd with
+    | scalar =>
+      cases hf : fmtAny a <;> cases dflt <;> qp_simp [hs1, hs2, hc, hf]
+    | map =>
+      obtain ⟨m, hm⟩ : ∃ m, lenOf a = m + 1 := ⟨lenOf a - 1, by simp [quoteAbsent] at hab; omega⟩
+      cases hf : fmtAny a <;> cases dflt <;> qp_simp [hs1, hs2, hc, hf, hm]
+    | list =>
+      obtain ⟨m, hm⟩ : ∃ m, lenOf a = m + 1 := ⟨lenOf a - 1, by simp [quoteAbsent] at hab; omega⟩
+      cases hf : fmtAny a <;> cases dflt <;> qp_simp [hs1, hs2, hc, hf, hm]
+  -- nothing usable is configured: the default decides
+  have dfl : quoteAbsent lenOf (cfg key) = true →
+      (match evalB (QP props ops splitN cfg lenOf parse fmtAny bound fuel) ([("exp", Val.str c)] ++ envQ n k) w qpClosure.2 with
+        | some (_, w3, .ret v) => some (v, w3)
+        | some (_, w3, .norm) => some (.tuple [], w3)
+        | _ => none) =
+      some (encStrRes (quoteCb splitN cfg lenOf parse fmtAny k c w).1, (quoteCb splitN cfg lenOf parse fmtAny k c w).2) := by
+    intro hab
+    cases hc : cfg key with
+    | none =>
+      cases dflt with
+      | none => qp_simp [hs1, hs2, hc]
+      | some d =>
+        by_cases hd : d = ""
+        · qp_simp [hs1, hs2, hc, hd]
+        · have hd' : (d == "") = false := by simpa using hd
+          cases hp : parse d with
+          | error e => qp_simp [hs1, hs2, hc, hd, hd', hp]
+          | ok b => cases hf : fmtAny b <;> qp_simp [hs1, hs2, hc, hd, hd', hp, hf]
+    | some q =>
+      obtain ⟨a, kd⟩ := q
+      rw [hc] at hab
+      cases kd with
+      | scalar => simp [quoteAbsent] at hab
+      | map =>
+        have hl : lenOf a = 0 := by simpa [quoteAbsent] using hab
+        cases dflt with
+        | none => qp_simp [hs1, hs2, hc, hl]
+        | some d =>
+          by_cases hd : d = ""
+          · qp_simp [hs1, hs2, hc, hl, hd]
+          · have hd' : (d == "") = false := by simpa using hd
+            cases hp : parse d with
+            | error e => qp_simp [hs1, hs2, hc, hl, hd, hd', hp]
+            | ok b => cases hf : fmtAny b <;> qp_simp [hs1, hs2, hc, hl, hd, hd', hp, hf]
+      | list =>
+        have hl : lenOf a = 0 := by simpa [quoteAbsent] using hab
+        cases dflt with
+        | none => qp_simp [hs1, hs2, hc, hl]
+        | some d =>
+          by_cases hd : d = ""
+          · qp_simp [hs1, hs2, hc, hl, hd]
+          · have hd' : (d == "") = false := by simpa using hd
+            cases hp : parse d with
+            | error e => qp_simp [hs1, hs2, hc, hl, hd, hd', hp]
+            | ok b => cases hf : fmtAny b <;> qp_simp [hs1, hs2, hc, hl, hd, hd', hp, hf]
+  cases hab : quoteAbsent lenOf (cfg key) with
+  | true => exact dfl hab
+  | false =>
+    cases hc : cfg key with
+    | none => rw [hc] at hab; simp [quoteAbsent] at hab
+    | some q => obtain ⟨a, kd⟩ := q; rw [hc] at hab; exact used a kd hc hab
+
+/-- the call `c.el.ReplaceAllContent(prop.TagStr, func(exp string) …)` of node k is the model loop over `quoteCb` -/
+theorem qp_hcall (hE : ∀ s, ops.isEmpty s = (s == "")) (n k : Nat) (w : SW) :
+    evalE (QP props ops splitN cfg lenOf parse fmtAny bound fuel) (envQ n k) w
+        (.hcall "self.el.ReplaceAllContent" [.sel (.var "prop") "TagStr"] qpClosure.1 qpClosure.2) =
+      (elLoop ops (quoteCb splitN cfg lenOf parse fmtAny k) "unresolved" bound fuel 0 (spropAt props k).tagStr w).map
+        (fun r => (encElRes r.1, r.2)) := by
+  have h : evalE (QP props ops splitN cfg lenOf parse fmtAny bound fuel) (envQ n k) w
+        (.hcall "self.el.ReplaceAllContent" [.sel (.var "prop") "TagStr"] qpClosure.1 qpClosure.2) =
+      elLoopK ops (qpHandler props ops splitN cfg lenOf parse fmtAny bound fuel n k) bound fuel 0 (spropAt props k).tagStr w := by
+    have hv : evalE (QP props ops splitN cfg lenOf parse fmtAny bound fuel) (envQ n k) w (.sel (.var "prop") "TagStr") =
+        some (.str (spropAt props k).tagStr, w) := by
+      go_simp [envQ, envS, QP, quotePrims, quoteFn_TagStr]
+    rw [evalE, evalEs, hv]
+    simp only [evalEs]
+    have key : ∀ (h1 h2 : Handler SW), (∀ as w'', h1 as w'' = h2 as w'') →
+        (QP props ops splitN cfg lenOf parse fmtAny bound fuel).hfn "self.el.ReplaceAllContent" [Val.str (spropAt props k).tagStr] h1 w =
+        (QP props ops splitN cfg lenOf parse fmtAny bound fuel).hfn "self.el.ReplaceAllContent" [Val.str (spropAt props k).tagStr] h2 w := by
+      intro h1 h2 hh
+      have : h1 = h2 := funext fun as => funext fun w'' => hh as w''
+      rw [this]
+    refine (key _ (qpHandler props ops splitN cfg lenOf parse fmtAny bound fuel n k) ?_).trans rfl
+    intro as w''
+    unfold qpHandler
+    by_cases hlen : qpClosure.1.length = as.length
+    · simp only [hlen, if_true]
+      cases evalB (QP props ops splitN cfg lenOf parse fmtAny bound fuel) (qpClosure.1.zip as ++ envQ n k) w'' qpClosure.2 with
+      | none => rfl
+      | some r => obtain ⟨e, w3, c⟩ := r; cases c <;> rfl
+    · simp only [hlen, if_false]
+  rw [h]
+  exact elLoopK_total ops _ _ bound hE (fun c w' => qp_closure props ops splitN cfg lenOf parse fmtAny bound fuel n k c w') fuel 0 _ w
+
+theorem qp_iter (hE : ∀ s, ops.isEmpty s = (s == "")) (hfuel : bound + 1 ≤ fuel) (n i k : Nat) (w : SW) :
+    ∃ c, (evalB (QP props ops splitN cfg lenOf parse fmtAny bound fuel) (Env.def (Env.def (envS n) "_" (.int i)) "prop" (.ref k 20)) w qpBody).map
+        (fun (e', w'', ctl) => (Env.leave e' (envS n).length, w'', ctl)) =
+      some (envS n, (nodeStep (quoteNode props ops splitN cfg lenOf parse fmtAny bound fuel) k () w).2.1, c) ∧
+      CtlMatches c (nodeStep (quoteNode props ops splitN cfg lenOf parse fmtAny bound fuel) k () w).2.2 := by
+  have henv : Env.def (Env.def (envS n) "_" (.int i)) "prop" (.ref k 20) = envQ n k := rfl
+  rw [henv, qpBody_shape]
+  by_cases hm : ops.find (spropAt props k).tagStr = ""
+  · refine ⟨.cont, ?_, Or.inl ⟨?_, Or.inr rfl⟩⟩
+    · qp_simp [hm, nodeStep, quoteNode]
+    · simp [nodeStep, quoteNode, hm, stageRet]
+  · have hm' : (ops.find (spropAt props k).tagStr == "") = false := by simpa using hm
+    have hterm := elLoop_terminates (σ := SW) bound ops (quoteCb splitN cfg lenOf parse fmtAny k) "unresolved" fuel 0
+      (spropAt props k).tagStr w (by omega) (by omega)
+    rw [evalB_cons]
+    have h0 : evalS (QP props ops splitN cfg lenOf parse fmtAny bound fuel) (envQ n k) w
+        (.ifs [] (.not (.call "self.el.MatchString" [.sel (.var "prop") "TagStr"])) [.cont] []) = some (envQ n k, w, .norm) := by
+      qp_simp [hm, hm']
+    rw [h0]
+    simp only []
+    rw [evalB_cons]
+    simp only [evalS]
+    rw [qp_hcall props ops splitN cfg lenOf parse fmtAny bound fuel hE n k w]
+    rcases hl : elLoop ops (quoteCb splitN cfg lenOf parse fmtAny k) "unresolved" bound fuel 0 (spropAt props k).tagStr w with _ | ⟨r, w'⟩
+    · rw [hl] at hterm; simp at hterm
+    · cases r with
+      | error e =>
+        refine ⟨.ret (.tuple [.nil, .str e]), ?_, Or.inr ⟨_, ?_, rfl⟩⟩
+        · qp_simp [encElRes, nodeStep, quoteNode, hm, hm', hl]
+        · simp [nodeStep, quoteNode, hm, hl, stageRet]
+      | ok r =>
+        refine ⟨.norm, ?_, Or.inl ⟨?_, Or.inl rfl⟩⟩
+        · qp_simp [encElRes, nodeStep, quoteNode, hm, hm', hl]
+        · simp [nodeStep, quoteNode, hm, hl, stageRet]
+
+/-- configQuoteAwarePostProcessors.PostProcessProperties, regenerated WITH its function literal: the nodes in order, each
+    through `quoteNode` — the bounded replacement loop over `quoteCb` on the tag text as written; TagVal is stored only
+    after a loop without error; the first failing node ends the stage -/
+theorem quote_sem (hE : ∀ s, ops.isEmpty s = (s == "")) (hfuel : bound + 1 ≤ fuel) (n : Nat) (w : SW) :
+    run (QP props ops splitN cfg lenOf parse fmtAny bound fuel) Progs.quote_PostProcessProperties
+        [.list ((List.range' 0 n).map (fun i => Val.ref i 20)), .str "c", .str "n"] w =
+      some (stageResult (stageLoop (quoteNode props ops splitN cfg lenOf parse fmtAny bound fuel) (List.range' 0 n) w).2,
+            (stageLoop (quoteNode props ops splitN cfg lenOf parse fmtAny bound fuel) (List.range' 0 n) w).1) :=
+  stage_run _ _ qpBody _ qp_shape qp_params (fun n i k w => qp_iter props ops splitN cfg lenOf parse fmtAny bound fuel hE hfuel n i k w) n w
+
+end quote
 end Ioc.Sem
